@@ -84,7 +84,7 @@ def h01b_pre(data, absolute, suffix, origin_i, relativize):
 
 def h01b_shards(tier):
     shapes = [(1,), (2,), (1, 1)] + ([(3,), (2, 1), (1, 2)] if tier == "thorough" else [])
-    return [{"shape": s, "_timeout": 300, "_path_timeout": 40} for s in shapes]
+    return [{"shape": s, "_timeout": 3000 if sum(s) >= 3 else 300, "_path_timeout": 40} for s in shapes]
 
 
 # ---------------------------------------------------------------- H01c uncompressed wire, real limits
